@@ -28,14 +28,11 @@ _LC = ["contracts.lifecycle"]
 _TF = ["contracts.transform"]
 _SP = ["contracts.selparse"]
 _MO = ["contracts.more"]
-CONTRACT_MODULES = {
-    "C12": ["contracts.c12"] + _RT + _MO,
-    "C04": ["contracts.c12"] + _RT + _TF + _LC + _SP + _MO + _OV,
-    "C02": _RT + _OV + _IN + _TF + _LC + _MO, "C16": _RT + _TF + ["contracts.tags"] + _MO, "C01": _RT + _TF + ["contracts.tags"] + _MO + _OV, "C06": _TF + _MO + _OV + _LC,
-    "C03": _OV + _IN + ["contracts.lemmas"] + _MO, "C07": _OV + _IN + ["contracts.lemmas"] + _MO + _LC, "C11": _IN + _OV + _TF + ["contracts.tags"] + _SP + _LC,
-    "C05": _OV + _LC + _TF + _MO, "C09": _OV, "C17": _OV + _LC + _MO, "C10": _OV + _LC + _TF + _SP + ["contracts.refs"],
-    "C14": _LC + ["contracts.refs"] + _TF + _MO, "C18": _LC + _SP + ["contracts.refs"] + _MO, "C15": _SP + _MO, "C13": _SP + ["contracts.c12", "contracts.refs"] + _MO,
-}
+_ALL = ["contracts.c12"] + _RT + _TF + _LC + _SP + _MO + _OV + _IN + ["contracts.tags", "contracts.lemmas", "contracts.refs"]
+# every contract module is loaded for every property: a unit takes part in a property's check iff the property is in its props
+# (module lists per property used to be maintained by hand, and seeded changes were missed because a unit lived in a module that
+# the property's list did not name)
+CONTRACT_MODULES = {p: list(_ALL) for p in ("C01", "C02", "C03", "C04", "C05", "C06", "C07", "C09", "C10", "C11", "C12", "C13", "C14", "C15", "C16", "C17", "C18")}
 
 UNIT_WALL_BUDGET = {"quick": 150, "thorough": 600}
 
